@@ -110,6 +110,14 @@ def run(e: Engine, rep: Report):
                  'patterns (a handshake the client can ask for by name runs '
                  'in the middle of the session and resets nothing)',
                  only={'R7.11'})
+    rep.rule('R8.18', 'whether the client sent a response is never read '
+             'off the decoded bytes: no value that comes out of b64decode '
+             '(directly or through a helper of AuthSession) is tested for '
+             'truth (`x or ...`, `not x`, `if x`) - the zero-length response '
+             '`=` of RFC 4954 decodes to b\'\', which is false: the server '
+             'sends a challenge the client does not expect and takes the '
+             'next line for the credentials')
+    r818(e, rep)
     rep.floor('R8.1', 1, 'socket swap sites')
 
 
@@ -1206,3 +1214,99 @@ def r816(e: Engine, rep: Report):
                       'after the handshake as if it had come through the '
                       'encrypted channel' % (attr, m.name), loc=m.loc(node),
                       reason='assigned / cleared in %s' % meth)
+
+
+# ------------------------------------------------------------------ R8.18
+def r818(e: Engine, rep: Report):
+    cls = e.p.cls(AUTHS)
+
+    def is_b64decode(x):
+        return isinstance(x, ast.Call) and (
+            (isinstance(x.func, ast.Attribute) and
+             x.func.attr in ('b64decode', 'decodebytes', 'a2b_base64',
+                             'standard_b64decode')) or
+            (isinstance(x.func, ast.Name) and
+             x.func.id in ('b64decode', 'decodebytes', 'a2b_base64')))
+    decoders: Set[str] = set()
+
+    def decoded_call(x):
+        return is_b64decode(x) or (
+            isinstance(x, ast.Call) and isinstance(x.func, ast.Attribute) and
+            isinstance(x.func.value, ast.Name) and
+            x.func.value.id == 'self' and x.func.attr in decoders)
+    changed = True
+    while changed:
+        changed = False
+        for nm, m in cls.methods.items():
+            if nm in decoders:
+                continue
+            if any(isinstance(r, ast.Return) and r.value is not None and
+                   decoded_call(r.value) for r in walk_own(m.node)):
+                decoders.add(nm)
+                changed = True
+    if not decoders:
+        rep.error('anchor vanished: no method of AuthSession returns a '
+                  'b64decode result')
+        return
+    n = 0
+    for nm, m in sorted(cls.methods.items()):
+        dec = set()
+        for a in walk_own(m.node):
+            if isinstance(a, ast.Assign) and decoded_call(a.value):
+                for t in a.targets:
+                    if isinstance(t, ast.Name):
+                        dec.add(t.id)
+            elif isinstance(a, ast.NamedExpr) and decoded_call(a.value) and \
+                    isinstance(a.target, ast.Name):
+                dec.add(a.target.id)
+        if not dec:
+            continue
+        rep.functions.add(m.qname)
+
+        def tested(x, out):
+            # expressions whose truth value the construct reads
+            if isinstance(x, ast.BoolOp):
+                for v in x.values:
+                    tested(v, out)
+            elif isinstance(x, ast.UnaryOp) and isinstance(x.op, ast.Not):
+                tested(x.operand, out)
+            else:
+                out.append(x)
+        sites = []
+        for x in walk_own(m.node):
+            if isinstance(x, (ast.If, ast.While, ast.IfExp)):
+                tested(x.test, sites)
+            elif isinstance(x, ast.BoolOp):
+                for v in x.values[:-1]:
+                    tested(v, sites)
+            elif isinstance(x, ast.UnaryOp) and isinstance(x.op, ast.Not):
+                tested(x.operand, sites)
+            elif isinstance(x, ast.Assert):
+                tested(x.test, sites)
+        seen = set()
+        for x in sites:
+            if id(x) in seen:
+                continue
+            seen.add(id(x))
+            hit = (isinstance(x, ast.Name) and x.id in dec) or decoded_call(x)
+            if not (hit or isinstance(x, ast.Name)):
+                continue
+            n += 1
+            rep.evaluations += 1
+            rep.check(not hit, 'R8.18', m.qname,
+                      'truth of `%s` is not the truth of a decoded response'
+                      % ' '.join(ast.unparse(x).split())[:40],
+                      '`%s` holds what b64decode returned and is tested for '
+                      'truth: the empty response (`AUTH <mech> =`, or an '
+                      'empty line in answer to a challenge) decodes to '
+                      'b\'\' and counts as "no response" - the server asks '
+                      'again with a challenge the client does not expect, '
+                      'and the mechanism is handed as credentials a line '
+                      'the client meant for something else'
+                      % ' '.join(ast.unparse(x).split())[:40],
+                      loc=m.loc(x), reason='not assigned from %s'
+                      % sorted(decoders | {'b64decode'}))
+    rep.evaluations += 1
+    rep.ok('R8.18', AUTHS, 'decoders of AuthSession: %s; %d truth test(s) '
+           'of locals next to a decoded value' % (sorted(decoders), n),
+           reason='judged one by one', nontrivial=False)
